@@ -36,7 +36,7 @@ class Obj:
 
 
 class State:
-    __slots__ = ("env", "conds", "status", "ret", "events")
+    __slots__ = ("env", "conds", "status", "ret", "events", "_broke")
 
     def __init__(self, env=None, conds=None, events=None):
         self.env = dict(env or {})
@@ -44,6 +44,7 @@ class State:
         self.status = "live"  # live | return | raise
         self.ret = None
         self.events = list(events or [])
+        self._broke = None
 
     def fork(self):
         s = State(self.env, self.conds, self.events)
@@ -980,6 +981,12 @@ class VN:
             return [st]
         if isinstance(s, (ast.Pass, ast.Import, ast.ImportFrom, ast.Global, ast.Nonlocal)):
             return [st]
+        if isinstance(s, ast.Break):
+            st.status = "break"
+            return [st]
+        if isinstance(s, ast.Continue):
+            st.status = "continue"
+            return [st]
         if isinstance(s, ast.Assert):
             return [st]
         if isinstance(s, ast.With):
@@ -1025,12 +1032,34 @@ def iter_once_loop(vn, s, st):
     iteration): the post-state expresses the effect of a generic iteration on the pre-state"""
     if not isinstance(s, ast.For):
         return None
+    if isinstance(s.target, ast.Name) is False and not isinstance(s.target, (ast.Tuple, ast.List)):
+        return None
     vn._iter_count = getattr(vn, "_iter_count", 0) + 1
     sym = T.sym("ITER%d" % vn._iter_count)
     it = vn.ev(s.iter, st)
     st.events.append(("loop", vn._as_term(it), s))
-    vn.assign(s.target, T.app("elem", vn._as_term(it), sym) if not isinstance(s.target, ast.Name) else T.app("elem", vn._as_term(it), sym), st, s)
-    return vn.block(list(s.body), [st])
+    vn.assign(s.target, T.app("elem", vn._as_term(it), sym), st, s)
+    outs = vn.block(list(s.body), [st])
+    for o in outs:
+        if o.status in ("break", "continue"):
+            o.status = "live"
+    return outs
+
+
+def iter_once_while(vn, s, st):
+    """`while` loops: one symbolic iteration of the body; `break` / `continue` resume after the loop.  The loop test is
+    recorded as an event, not as a path condition (the state after the loop is the state after a generic last iteration)."""
+    if isinstance(s, ast.For):
+        return iter_once_loop(vn, s, st)
+    if not isinstance(s, ast.While):
+        return None
+    st.events.append(("while", vn._as_term(vn.ev(s.test, st)), s))
+    outs = vn.block(list(s.body), [st])
+    for o in outs:
+        if o.status in ("break", "continue"):
+            o.events.append((o.status, None, s))
+            o.status = "live"
+    return outs
 
 
 def unroll_loop(vn, s, st):
@@ -1048,8 +1077,17 @@ def unroll_loop(vn, s, st):
             if cur.status != "live":
                 nxt.append(cur)
                 continue
+            if getattr(cur, "_broke", None) is s:
+                nxt.append(cur)
+                continue
             vn.assign(s.target, elem, cur, s)
             outs = vn.block(list(s.body), [cur])
+            for o in outs:
+                if o.status == "break":
+                    o.status = "live"
+                    o._broke = s
+                elif o.status == "continue":
+                    o.status = "live"
             nxt.extend(outs)
         states = nxt
     if s.orelse:
